@@ -148,7 +148,7 @@ def _run(cfg):
             if cfg.get("shift"):
                 r = r + cfg["shift"]
             ru = int(round(r * RU))
-        rec.recv(t0 + i, r, rcode=ru)
+        rec.recv(t0 + i, R.cast_reward(r, cfg.get("rtype")), rcode=ru)
         if rec.failed:
             break
         if i in queries:
